@@ -22,7 +22,8 @@ structure Obj.refsIn (S C : Nat → Prop) (ob : Obj) : Prop where
   watchers : ∀ kv ∈ ob.watchers, ∀ wt ∈ kv.2, wt.inSet S
   dyn : ∀ kv ∈ ob.dyn, ∀ wt ∈ kv.2, wt.inSet S
   /-- the `_objects` / `names` containers of its per-instance Selector Parameter copies -/
-  pcopies : ∀ kv ∈ ob.pcopies, ∀ s : Nat × Nat, kv.2.slots = some s → C s.1 ∧ C s.2
+  pcopies : ∀ kv ∈ ob.pcopies, (∀ s : Nat × Nat, kv.2.slots = some s → C s.1 ∧ C s.2) ∧
+    (∀ wt ∈ kv.2.swatchers, wt.inSet S)
 
 /-- the objects in `S` refer only to objects in `S` and lists in `C` -/
 def Closed (w : World) (S C : Nat → Prop) : Prop :=
@@ -178,18 +179,20 @@ theorem touchParam_good {w : World} {S C : Nat → Prop} {o : Nat} {p : String} 
       · rename_i d _
         split
         · refine setObj_good hc ho (fun ob _ h => ⟨h.values, h.attrs, h.watchers, h.dyn, ?_⟩)
-          intro kv hkv s hs
+          intro kv hkv
           rcases mem_insert hkv with rfl | hm
-          · simp at hs
-          · exact h.pcopies kv hm s hs
+          · exact ⟨by simp, by simp⟩
+          · exact h.pcopies kv hm
         · rename_i co cn _
           have g1 := appendCells_good (S := S) [deref w.cells co, deref w.cells cn] hc hf
           refine g1.trans (setObj_good g1.closed ho (fun ob _ h => ⟨h.values, h.attrs, h.watchers, h.dyn, ?_⟩))
-          intro kv hkv s hs
+          intro kv hkv
           rcases mem_insert hkv with rfl | hm
-          · simp at hs; subst hs
+          · refine ⟨?_, by simp⟩
+            intro s hs
+            simp at hs; subst hs
             exact ⟨hf _ (Nat.le_refl _), hf _ (Nat.le_succ _)⟩
-          · exact h.pcopies kv hm s hs
+          · exact h.pcopies kv hm
 
 theorem addWatcher_good {w : World} {S C : Nat → Prop} {wt : Watcher} (hc : Closed w S C) (hw : wt.inSet S) :
     Good w (w.addWatcher wt) S C := by
@@ -508,7 +511,7 @@ theorem pcopy_slots_inC {w : World} {S C : Nat → Prop} {o : Nat} {p : String} 
     | none => simp [hl] at h
     | some pc =>
       simp only [hl, Option.bind_some] at h
-      exact (hc o ob ho hob).pcopies _ (lookup_mem hl) (co, cn) h
+      exact ((hc o ob ho hob).pcopies _ (lookup_mem hl)).1 (co, cn) h
 
 theorem ensureInObjects_good {w w' : World} {S C : Nat → Prop} {o : Nat} {p : String} {v : Val}
     (hc : Closed w S C) (ho : S o) (h : w.ensureInObjects o p v = some w') : Good w w' S C := by
@@ -617,14 +620,36 @@ theorem doPEdit_good {w w' : World} {S C : Nat → Prop} {o : Nat} {p : String} 
   | none => simp [hl] at h
   | some pc =>
     simp only [hl] at h
-    simp at h; subst h
-    refine g1.trans (setObj_good g1.closed ho (fun ob hob hh => ⟨hh.values, hh.attrs, hh.watchers, hh.dyn, ?_⟩))
-    intro kv hkv s hs
-    rcases mem_insert hkv with rfl | hm
-    · have hpc : lookup ob.pcopies p = some pc := by simpa [hob] using hl
-      have hsl : pc.slots = some s := by cases e <;> simpa using hs
-      exact hh.pcopies _ (lookup_mem hpc) s hsl
-    · exact hh.pcopies kv hm s hs
+    -- the copy `pc` is the one stored in the object: its references are inside `S`/`C`
+    have hpcIn : (∀ s : Nat × Nat, pc.slots = some s → C s.1 ∧ C s.2) ∧ (∀ wt ∈ pc.swatchers, wt.inSet S) := by
+      cases hob : (w.touchParam o p).objs[o]? with
+      | none => simp [hob] at hl
+      | some ob =>
+        simp only [hob, Option.bind_some] at hl
+        exact (g1.closed o ob ho hob).pcopies _ (lookup_mem hl)
+    have hset : ∀ pc' : PCopy, pc'.slots = pc.slots → pc'.swatchers = pc.swatchers →
+        Good (w.touchParam o p) ((w.touchParam o p).setObj o fun ob => { ob with pcopies := insert ob.pcopies p pc' }) S C := by
+      intro pc' h1 h2
+      refine setObj_good g1.closed ho (fun ob _ hh => ⟨hh.values, hh.attrs, hh.watchers, hh.dyn, ?_⟩)
+      intro kv hkv
+      rcases mem_insert hkv with rfl | hm
+      · simp only [h1, h2]; exact hpcIn
+      · exact hh.pcopies kv hm
+    cases e with
+    | bounds b =>
+      simp only at h
+      have g2 := hset { pc with bounds := b } rfl rfl
+      split at h
+      · simp at h; subst h; exact g1.trans g2
+      · simp at h; subst h
+        refine (g1.trans g2).trans (log_good g2.closed _ ?_)
+        intro e he
+        simp only [List.mem_map] at he
+        obtain ⟨wt, hwt, rfl⟩ := he
+        exact (hpcIn.2 wt hwt).2
+    | constant b =>
+      simp at h; subst h
+      exact g1.trans (hset { pc with constant := b } rfl rfl)
 
 theorem doSetAttr_good {w w' : World} {S C : Nat → Prop} {o : Nat} {name : String} {a : Arg}
     (hc : Closed w S C) (ho : S o) (ha : a.inSets w S C) (h : doSetAttr w o name a = .ok w') : Good w w' S C := by
@@ -674,6 +699,54 @@ def Op.inSets (w : World) (S C : Nat → Prop) : Op → Prop
   | .mutAttr o _ _ => S o
   | .watch o _ t _ => S o ∧ S t
   | .selAdd o _ _ => S o
+  | .watchPartial o _ t _ => S o ∧ S t
+  | .watchSlot o _ t _ => S o ∧ S t
+
+theorem doWatchPartial_good {w w' : World} {S C : Nat → Prop} {o t : Nat} {p cb : String}
+    (hc : Closed w S C) (ho : S o) (ht : S t) (h : doWatchPartial w o p t cb = .ok w') : Good w w' S C := by
+  unfold doWatchPartial at h
+  split at h
+  · split at h
+    · simp at h; subst h
+      have g1 := nextPid_good hc (w.nextPid + 1)
+      have g2 : Good _ (World.addWatcher { w with nextPid := w.nextPid + 1 }
+          ⟨o, ⟨.partialFn, t, cb, Option.none, w.nextPid⟩, [p], 0⟩) S C := addWatcher_good g1.closed ⟨ho, ht⟩
+      exact g1.trans g2
+    · simp at h
+  · simp at h
+
+theorem doWatchSlot_good {w w' : World} {S C : Nat → Prop} {o t : Nat} {p cb : String}
+    (hc : Closed w S C) (ho : S o) (ht : S t) (hf : Fresh w C) (h : doWatchSlot w o p t cb = .ok w') :
+    Good w w' S C := by
+  unfold doWatchSlot at h
+  have g1 := touchParam_good (p := p) hc ho hf
+  simp only at h
+  cases hl : ((w.touchParam o p).objs[o]?).bind (fun ob => lookup ob.pcopies p) with
+  | none => simp [hl] at h
+  | some pc =>
+    cases htt : (w.touchParam o p).objs[t]? with
+    | none => simp [hl, htt] at h
+    | some tt =>
+      simp only [hl, htt] at h
+      split at h
+      · simp at h; subst h
+        have hpcIn : (∀ s : Nat × Nat, pc.slots = some s → C s.1 ∧ C s.2) ∧ (∀ wt ∈ pc.swatchers, wt.inSet S) := by
+          cases hob : (w.touchParam o p).objs[o]? with
+          | none => simp [hob] at hl
+          | some ob =>
+            simp only [hob, Option.bind_some] at hl
+            exact (g1.closed o ob ho hob).pcopies _ (lookup_mem hl)
+        refine g1.trans (setObj_good g1.closed ho (fun ob _ hh => ⟨hh.values, hh.attrs, hh.watchers, hh.dyn, ?_⟩))
+        intro kv hkv
+        rcases mem_insert hkv with rfl | hm
+        · refine ⟨hpcIn.1, ?_⟩
+          intro wt hwt
+          simp only [List.mem_append, List.mem_singleton] at hwt
+          rcases hwt with hwt | rfl
+          · exact hpcIn.2 wt hwt
+          · exact ⟨ho, ht⟩
+        · exact hh.pcopies kv hm
+      · simp at h
 
 /-- every operation on objects of a closed set (other than constructing a new object) keeps the set
 closed, changes nothing outside it and invokes only methods of its objects -/
@@ -688,6 +761,8 @@ theorem step_good {w w' : World} {S C : Nat → Prop} {op : Op} (hc : Closed w S
   | mutAttr o name n => exact doMutAttr_good hc hop h
   | watch o p t cb => exact doWatch_good hc hop.1 hop.2 h
   | selAdd o p n => exact doSelAdd_good hc hop hf h
+  | watchPartial o p t cb => exact doWatchPartial_good hc hop.1 hop.2 h
+  | watchSlot o p t cb => exact doWatchSlot_good hc hop.1 hop.2 hf h
 
 /-! ## `__setstate__` and the graph copy -/
 
@@ -708,6 +783,7 @@ theorem rebindWatcher_spec {pol : Policy} {cls : Option ClassDef} {self : Nat} {
   · by_cases ho : wt.fn.owner = wt.inst
     · simp [ho] at h; obtain ⟨rfl, _⟩ := h; exact ⟨rfl, Or.inl rfl, rfl, rfl⟩
     · simp [ho] at h; obtain ⟨rfl, _⟩ := h; exact ⟨rfl, Or.inr rfl, rfl, rfl⟩
+  · simp at h; obtain ⟨rfl, _⟩ := h; exact ⟨rfl, Or.inr rfl, rfl, rfl⟩
 
 theorem rebindList_spec {pol : Policy} {cls : Option ClassDef} {self : Nat} :
     ∀ {l out : List Watcher} {pid pid' : Nat}, rebindList pol cls self l pid = .ok (out, pid') →
@@ -843,6 +919,7 @@ theorem rebindWatcher_ok {pol : Policy} {cls : ClassDef} {self : Nat} {wt : Watc
     · simp [hr, h hk hr]
     · simp [hr]
   · split <;> exact ⟨_, rfl⟩
+  · exact ⟨_, rfl⟩
 
 theorem rebindList_ok {pol : Policy} {cls : ClassDef} {self : Nat} : ∀ (l : List Watcher) (pid : Nat),
     (∀ wt ∈ l, wt.fn.kind = .mcaller → pol.redo wt.fn.owner self = true → cls.hasAttr wt.fn.method = true) →
@@ -934,6 +1011,7 @@ theorem rebindWatcher_unbound (cls : Option ClassDef) (self : Nat) (wt : Watcher
   cases hk : wt.fn.kind <;> simp only [Policy.redo]
   · exact ⟨_, rfl⟩
   · split <;> exact ⟨_, rfl⟩
+  · exact ⟨_, rfl⟩
 
 theorem rebindList_unbound (cls : Option ClassDef) (self : Nat) : ∀ (l : List Watcher) (pid : Nat),
     ∃ r, rebindList .unbound cls self l pid = .ok r
@@ -1060,12 +1138,18 @@ theorem renObj_refsIn (no nc np : Nat) (ob : Obj) :
     (renObj no nc np ob).refsIn (fun o => no ≤ o) (fun c => nc ≤ c) := by
   refine ⟨?_, ?_, ?_, ?_, ?_⟩
   rotate_right
-  · intro kv hkv s hs
+  · intro kv hkv
     simp only [renObj, List.mem_map] at hkv
     obtain ⟨kv0, _, rfl⟩ := hkv
-    cases h0 : kv0.2.slots with
-    | none => simp [h0] at hs
-    | some s0 => simp [h0] at hs; subst hs; simp
+    refine ⟨?_, ?_⟩
+    · intro s hs
+      cases h0 : kv0.2.slots with
+      | none => simp [renPCopy, h0] at hs
+      | some s0 => simp [renPCopy, h0] at hs; subst hs; simp
+    · intro wt hwt
+      simp only [renPCopy, List.mem_map] at hwt
+      obtain ⟨wt0, _, rfl⟩ := hwt
+      simp [Watcher.inSet, renWatcher, renCaller]
   · intro kv hkv
     simp only [renObj, List.mem_map] at hkv
     obtain ⟨kv0, _, rfl⟩ := hkv
@@ -1135,9 +1219,12 @@ theorem wfB_sound {w : World} (h : wfB w = true) :
     intro wt h; simp [watcherOKB] at h; exact h
   refine ⟨fun kv hkv => hval _ (hv kv hkv), fun kv hkv => hval _ (ha kv hkv),
          fun kv hkv wt hx => hwt wt (hw kv hkv wt hx), fun kv hkv wt hx => hwt wt (hd kv hkv wt hx), ?_⟩
-  intro kv hkv s hs
-  have := hp kv hkv
-  simp only [hs, Bool.and_eq_true, decide_eq_true_eq] at this
-  exact this
+  intro kv hkv
+  have h2 := hp kv hkv
+  refine ⟨?_, fun wt hx => hwt wt (h2.2 wt hx)⟩
+  intro s hs
+  have h1 := h2.1
+  simp only [hs, Bool.and_eq_true, decide_eq_true_eq] at h1
+  exact h1
 
 end ParamVerif.Copy
